@@ -338,7 +338,7 @@ func (r *Report) Finish() int {
 		sv, sweepCov = r.runSweep(r.AllowFile)
 		violations += sv
 	}
-	if r.Sweep == "lockdiscipline" {
+	if r.Sweep == "lockdiscipline" || r.Sweep == "pairing" {
 		var sv int
 		sv, sweepCov = r.runLockCheck(r.AllowFile)
 		violations += sv
